@@ -137,9 +137,22 @@ Definition defer_cond (c : conn) (t : Z) : bool :=
   || ((t =? 53) && negb (auth_in_prog c || auth_complete c))
   || ((79 <? t) && negb (auth_complete c)).
 
+(* Where the client raises its request-outstanding flag (_auth_request_sent):
+   false = in send_userauth_request, when the request is HANDED to send_packet - also when send_packet only queues
+           it because a key exchange is in progress (the code as it is);
+   true  = in send_packet, when a USERAUTH_REQUEST is actually put on the wire (proposed repair C06-3).
+   A constant of the model, not detected from behaviour; every lemma below is proved for both values. *)
+Definition request_flag_on_wire : bool := false.
+
 Definition send_packet (c : conn) (t a : Z) : conn :=
   if defer_cond c t then set_deferred (deferred c ++ [t]) c
-  else emit (if send_enc c && (49 <? t) then emit c 2 0 else c) t a.        (* IGNORE in front of non-kex packets *)
+  else
+    let c1 := emit (if send_enc c && (49 <? t) then emit c 2 0 else c) t a in      (* IGNORE in front of non-kex packets *)
+    if request_flag_on_wire && (t =? 50) then set_req_issued true c1 else c1.
+
+(* send_userauth_request *)
+Definition issue_request (c : conn) : conn :=
+  let c1 := send_packet c 50 0 in if request_flag_on_wire then c1 else set_req_issued true c1.
 
 Fixpoint send_list (c : conn) (l : list Z) : conn :=
   match l with
@@ -374,11 +387,11 @@ Definition run_task (c : conn) (k : task) : conn :=
   | TClientAuth m =>
       (* the start task asks the application for the credential; a gated application suspends it there *)
       if gated c && negb (m =? 0) then set_waiting true c      (* 'none' asks the application nothing *)
-      else set_req_issued true (send_packet c 50 0)     (* send_userauth_request hands the request to send_packet *)
+      else issue_request c
   | TChangePw => try_next_auth (set_app_events (app_events c + 1) c) true    (* password_change_requested -> NotImplemented *)
   | TClientKbdResp cancel =>                                 (* kbdint_challenge_received *)
       if cancel =? 0 then send_packet c 61 0 else try_next_auth c true
-  | TClientPkSign => set_req_issued true (send_packet c 50 0)
+  | TClientPkSign => issue_request c
   | TServerPw u pw =>
       if pw_valid u pw then send_userauth_success c else send_userauth_failure c
   | TServerKbd u => send_packet c 60 0                      (* get_kbdint_challenge: INFO_REQUEST *)
@@ -417,7 +430,7 @@ Definition step_g (fixed fixk : bool) (s : st) (e : event) : st :=
   | EvRelease v =>
       if closed (cn s) || negb (waiting (cn s)) || (auth (cn s) =? 0) then s     (* only an auth object's start task waits *)
       else if v =? 0 then with_conn s (try_next_auth (set_waiting false (cn s)) true)
-      else with_conn s (set_req_issued true (send_packet (set_waiting false (cn s)) 50 0))
+      else with_conn s (issue_request (set_waiting false (cn s)))
   end.
 
 (* forget what the previous step logged *)
